@@ -29,6 +29,8 @@ After(s, ev) ==
     [] ev.ev = "burst"  -> Quiesce(ApplyAll(s, ev.fs))
     [] ev.ev = "end"    -> Apply(s, MkOp("end", 0, 0, NoMsg, ev.how))
     [] ev.ev = "wfail"  -> Apply(s, MkOp("wfail", 0, 0, NoMsg, ""))
+    [] ev.ev = "stall"  -> Apply(s, MkOp("stall", 0, 0, NoMsg, ""))
+    [] ev.ev = "unstall" -> Apply(s, MkOp("unstall", 0, 0, NoMsg, ""))
     [] ev.ev = "drop"   -> Apply(s, MkOp("drop", 0, 0, NoMsg, ""))
     [] ev.ev = "tick"   -> Apply(s, MkOp("tick", 0, 0, NoMsg, ""))
 
@@ -39,6 +41,7 @@ Completed(s, t) == {r \in Reqs : Len(t.done[r]) > Len(s.done[r])}
 ObsMatches(s, t, ev) ==
   /\ NewOut(s, t) = ev.out
   /\ t.closed = ev.closed
+  /\ (t.reqmsg # <<>>) = ev.partial
   /\ Completed(s, t) = {ev.done[i].r : i \in 1..Len(ev.done)}
   /\ Len(ev.done) = Cardinality(Completed(s, t))
   /\ \A i \in 1..Len(ev.done) :
